@@ -423,6 +423,34 @@ func (obj *Package) Set(name string, value Object, privates ...bool) (vv *VarVal
 	return
 }
 
+// Intern returns the variable entry for name and makes an unbound one if there
+// is none, in one step: of several routines interning the same new name one
+// is told that it created the entry, the others get that entry.
+func (obj *Package) Intern(name string) (vv *VarVal, created bool) {
+	if vv = obj.GetVarVal(name); vv != nil {
+		return
+	}
+	var value Object
+	name, value = obj.PreSet(obj, name, Unbound)
+	obj.mu.Lock()
+	// Looked up again with the mutex held until the entry is made, another
+	// routine may have made it since the lookup above.
+	if vv = obj.getVarVal(name); vv == nil {
+		if obj.Locked {
+			obj.mu.Unlock()
+			PackagePanic(NewScope(), 0, obj, "Package %s is locked thus no new variables can be set.", obj.Name)
+		}
+		vv = &VarVal{Val: value, Pkg: obj, name: name}
+		obj.vars[name] = vv
+		created = true
+	}
+	obj.mu.Unlock()
+	if created {
+		callSetHooks(obj, name)
+	}
+	return
+}
+
 // SetIfHas sets a variable if the package has that variable.
 func (obj *Package) SetIfHas(name string, value Object, private bool) (vv *VarVal) {
 	obj.mu.Lock()
